@@ -417,6 +417,10 @@ class Negative(Term):
     def is_aggregate(self) -> Optional[bool]:
         return self.term.is_aggregate
 
+    @builder
+    def replace_table(self, current_table: Optional["Table"], new_table: Optional["Table"]) -> "Negative":
+        self.term = self.term.replace_table(current_table, new_table)
+
     def get_sql(self, **kwargs: Any) -> str:
         term_sql = self.term.get_sql(**kwargs)
         if isinstance(self.term, ArithmeticExpression) or term_sql.startswith("-"):
@@ -820,7 +824,7 @@ class NestedCriterion(Criterion):
         """
         self.left = self.left.replace_table(current_table, new_table)
         self.right = self.right.replace_table(current_table, new_table)
-        self.nested = self.right.replace_table(current_table, new_table)
+        self.nested = self.nested.replace_table(current_table, new_table)
 
     def get_sql(self, with_alias: bool = False, **kwargs: Any) -> str:
         sql = "{left}{comparator}{right}{nested_comparator}{nested}".format(
@@ -931,6 +935,7 @@ class ContainsCriterion(Criterion):
             A copy of the criterion with the tables replaced.
         """
         self.term = self.term.replace_table(current_table, new_table)
+        self.container = self.container.replace_table(current_table, new_table)
 
     def get_sql(self, subquery: Any = None, **kwargs: Any) -> str:
         sql = "{term} {not_}IN {container}".format(
@@ -994,6 +999,8 @@ class BetweenCriterion(RangeCriterion):
             A copy of the criterion with the tables replaced.
         """
         self.term = self.term.replace_table(current_table, new_table)
+        self.start = self.start.replace_table(current_table, new_table)
+        self.end = self.end.replace_table(current_table, new_table)
 
     def get_sql(self, **kwargs: Any) -> str:
         # FIXME escape
@@ -1006,6 +1013,12 @@ class BetweenCriterion(RangeCriterion):
 
 
 class PeriodCriterion(RangeCriterion):
+    @builder
+    def replace_table(self, current_table: Optional["Table"], new_table: Optional["Table"]) -> "PeriodCriterion":
+        self.term = self.term.replace_table(current_table, new_table)
+        self.start = self.start.replace_table(current_table, new_table)
+        self.end = self.end.replace_table(current_table, new_table)
+
     def get_sql(self, **kwargs: Any) -> str:
         sql = "{term} FROM {start} TO {end}".format(
             term=self.term.get_sql(**kwargs),
@@ -1039,6 +1052,8 @@ class BitwiseAndCriterion(Criterion):
             A copy of the criterion with the tables replaced.
         """
         self.term = self.term.replace_table(current_table, new_table)
+        if isinstance(self.value, Term):
+            self.value = self.value.replace_table(current_table, new_table)
 
     def get_sql(self, **kwargs: Any) -> str:
         sql = "({term} & {value})".format(
@@ -1360,6 +1375,10 @@ class All(Criterion):
         yield self
         yield from self.term.nodes_()
 
+    @builder
+    def replace_table(self, current_table: Optional["Table"], new_table: Optional["Table"]) -> "All":
+        self.term = self.term.replace_table(current_table, new_table)
+
     def get_sql(self, **kwargs: Any) -> str:
         sql = "{term} ALL".format(term=self.term.get_sql(**kwargs))
         return format_alias_sql(sql, self.alias, **kwargs)
@@ -1484,6 +1503,11 @@ class AggregateFunction(Function):
         self._include_filter = True
         self._filters = self._filters + list(filters)
 
+    @builder
+    def replace_table(self, current_table: Optional["Table"], new_table: Optional["Table"]) -> "AggregateFunction":
+        self.args = [param.replace_table(current_table, new_table) for param in self.args]
+        self._filters = [criterion.replace_table(current_table, new_table) for criterion in self._filters]
+
     def get_filter_sql(self, **kwargs: Any) -> str:
         if self._include_filter:
             return "WHERE {criterions}".format(criterions=Criterion.all(self._filters).get_sql(**kwargs))
@@ -1519,6 +1543,19 @@ class AnalyticFunction(AggregateFunction):
     def orderby(self, *terms: Any, **kwargs: Any) -> "AnalyticFunction":
         self._include_over = True
         self._orderbys = self._orderbys + [(term, kwargs.get("order")) for term in terms]
+
+    @builder
+    def replace_table(self, current_table: Optional["Table"], new_table: Optional["Table"]) -> "AnalyticFunction":
+        self.args = [param.replace_table(current_table, new_table) for param in self.args]
+        self._filters = [criterion.replace_table(current_table, new_table) for criterion in self._filters]
+        self._partition = [
+            term.replace_table(current_table, new_table) if isinstance(term, Term) else term
+            for term in self._partition
+        ]
+        self._orderbys = [
+            (term.replace_table(current_table, new_table) if isinstance(term, Term) else term, orient)
+            for term, orient in self._orderbys
+        ]
 
     def _orderby_field(self, field: Field, orient: Optional[Order], **kwargs: Any) -> str:
         if orient is None:
